@@ -314,7 +314,11 @@ class HistogramND(HistogramBase):
             if ixbin == 0:
                 return None
             if ixbin == self.shape[axis]:
-                if value_scalar <= self.get_bin_right_edges(axis)[-1]:
+                last_edge = self.get_bin_right_edges(axis)[-1]
+                if value_scalar < last_edge or (
+                    value_scalar == last_edge
+                    and self._binnings[axis].includes_right_edge
+                ):
                     return int(ixbin - 1)
                 else:
                     return None
